@@ -20,7 +20,7 @@ RULE = ('cases are histories of 4-14 steps: PGPy signing operations over generat
         'implementations; a run is non-trivial when at least one artifact was verified by PGPy after the hop and by the '
         'reference peer; distinct = distinct (step-kind sequence, signature kinds, option-name sets) among non-trivial runs')
 TIERS = {'quick': {'runs': 3000, 'budget_s': 70}, 'thorough': {'runs': 200000, 'budget_s': 1500}}
-PROBES = ('kind_doc', 'kind_text', 'kind_timestamp', 'kind_msg', 'kind_cleartext', 'kind_cert_self', 'kind_cert_other',
+PROBES = ('live_object_verified', 'kind_doc', 'kind_text', 'kind_timestamp', 'kind_msg', 'kind_cleartext', 'kind_cert_self', 'kind_cert_other',
           'kind_uattr_cert', 'kind_direct_other', 'kind_direct_self', 'kind_bind', 'kind_revoke_key', 'kind_revoke_subkey',
           'kind_revoke_uid', 'kind_revoker', 'kind_attest', 'ref_signed', 'ref_key_full_verify', 'perturb_armor', 'perturb_reframe',
           'perturb_crlf', 'sign_refused', 'rsa', 'dsa', 'ecdsa', 'eddsa', 'same_second_pair', 'subkey_signed')
@@ -184,6 +184,19 @@ def execute(case, ctx):
         if last_sig_second == sec:
             ctx.probe('same_second_pair')
         last_sig_second = sec
+        live = getattr(w, 'last_live', None)
+        if live is not None and step['kind'] in ('doc', 'text', 'timestamp'):
+            # the signature object as made, before any export: the signer's public half verifies it
+            ctx.checked()
+            ctx.probe('live_object_verified')
+            try:
+                lok = bool(w.keys[step['key']].pubkey.verify(live[0], live[1]))
+            except Exception as e:
+                ctx.viol('C02:own-rejected-live:%s:%s' % (step['kind'], type(e).__name__),
+                         'PGPy cannot verify the %s signature object it has just made: %s: %s' % (step['kind'], type(e).__name__, e))
+                lok = True
+            if not lok:
+                ctx.viol('C02:own-rejected-live:%s:falsy' % step['kind'], 'PGPy does not verify the %s signature object it has just made' % step['kind'])
         sent = perturb(art, step.get('perturb', []), ctx)
         # --- PGPy after the hop
         ctx.checked()
